@@ -316,6 +316,21 @@ def hash_ack(run: Run, model: PyModel, eff: Effects, rid: str) -> None:
         run.check(rid, "reindex_database records hashes only for the pages it examined", ok, "reindex_database", c,
                   f"the hash map written by reindex_database is `{ast.unparse(arg) if arg is not None else '?'}`, not the map `{processed}` whose pages were compared and processed: "
                   "pages that were never re-read are recorded as up to date and their pending edits are missed forever", file=FILE_H, node=c)
+    if len(loops) == 1:
+        inside = [c for c in writes if any(c is x for x in ast.walk(loops[0]))]
+        for c in inside:
+            arg = c.args[1] if len(c.args) > 1 else None
+            if isinstance(arg, ast.Name) and arg.id == processed:
+                run.refuted(rid, "reindex_database", c, f"the whole map `{processed}` (new hashes of EVERY examined file) is written to file_hash.json inside the per-page loop: if a later page "
+                            "makes the run stop (a refused broken page, a crash), pages that were not processed yet are already recorded as up to date and are skipped forever "
+                            "(a refused broken page is silently accepted on the next run)", file=FILE_H, node=c)
+    # the hashes themselves: always computed from the file's current content
+    fm = model.func(f"{H}._get_file_hash_map")
+    stores = [n for n in walk_no_nested(fm.node) if isinstance(n, ast.Assign) and isinstance(n.targets[0], ast.Subscript)]
+    bad = [s2 for s2 in stores if not (isinstance(s2.value, ast.Call) and model.callee(fm, s2.value) == f"{H}._hash_file")]
+    run.check(rid, "every recorded hash is computed from the file's current content", bool(stores) and not bad, "_get_file_hash_map", bad[0] if bad else "hash source",
+              f"`{ast.unparse(bad[0])[:80] if bad else ''}`: a hash is taken from somewhere other than _hash_file(path) (e.g. reused from the old map on an mtime test): "
+              "a content change that keeps an old mtime (cp -p, rsync -t, restore from backup) is never noticed", file=FILE_H, node=bad[0] if bad else fm.node)
     fu = model.func(f"{H}._update_zo_file")
     for c in ast.walk(fu.node):
         if isinstance(c, ast.Call) and model.callee(fu, c) == f"{H}._write_file_hash_to_disk":
@@ -431,3 +446,21 @@ def ack_before_writeback(run: Run, model: PyModel, eff: Effects, rid: str) -> No
                   f"{name} writes file_hash.json (hashes taken BEFORE the write-back) and returns; the queued {queues} run afterwards. If the process dies before a page's "
                   "write-back, the rerun finds the recorded hash unchanged and skips the page: the file never gains the ZIDs / modify dates the index already has",
                   file=FILE_H, node=fi.node)
+
+
+def hashmap_readers(run: Run, model: PyModel, rid: str) -> None:
+    """Only reindex_database may depend on the content of file_hash.json (create and the write-back only overwrite it)."""
+    readers = []
+    for q, fi in model.funcs.items():
+        if not q.startswith(H):
+            continue
+        txt = ast.unparse(fi.node)
+        for c in ast.walk(fi.node):
+            if isinstance(c, ast.Call) and isinstance(c.func, ast.Attribute) and c.func.attr in ("read_bytes", "read_text") and "hash" in ast.unparse(c.func.value):
+                readers.append(q.split(".")[-1])
+            if isinstance(c, ast.Call) and ast.unparse(c.func) in ("json.load",) and "hash" in txt:
+                readers.append(q.split(".")[-1])
+    readers = sorted(set(readers))
+    run.check(rid, "only reindex_database reads file_hash.json", readers == ["reindex_database"], "handlers", f"readers {readers}",
+              f"file_hash.json is read by {readers}: `db create` and the write-back handlers used to only overwrite it, which is why they survive a torn (truncated) hash map; "
+              "a reader on their path turns a torn write into a JSONDecodeError on every re-run", file=FILE_H)
